@@ -254,12 +254,20 @@ func init() {
 				if r.Chance(50) {
 					hdrs = c07HdrTable(k.file)
 				}
-				expect := VL{VT("valid"), cidsVal(ar.roots), blksVal(ar.blks), vbool(k.idxIDs)}
-				in := VL{VN(k.front), k.o.val(), VB(k.file), k.supplied, qs, hdrs, expect}
 				backing := r.Intn(4)
 				if k.front == 1 && backing == 3 {
 					backing = 2
 				}
+				// histories with Close (blockstore): everything is asked again on the closed store
+				if k.front == 0 && r.Chance(35) {
+					_, hasSup := k.supplied.(VL)
+					cl := VL{VT("close"), vbool(backing == 3 && !hasSup)}
+					after := c07Queries(0, keys[:1+r.Intn(len(keys))])
+					qs = append(append(append(qs, cl), after...), cl, VL{VT("roots")})
+					c.Count("history:with-close")
+				}
+				expect := VL{VT("valid"), cidsVal(ar.roots), blksVal(ar.blks), vbool(k.idxIDs)}
+				in := VL{VN(k.front), k.o.val(), VB(k.file), k.supplied, qs, hdrs, expect}
 				obs := c07RunImpl(c, k.front, k.o, k.file, k.supplied, qs, backing)
 				c.Emit("ro", in, obs, len(ar.blks) >= 2)
 				c.Count("case:" + k.label)
@@ -275,7 +283,7 @@ func init() {
 					which := r.Intn(3)
 					f := append([]byte(nil), [][]byte{v1, v2none, emb}[which]...)
 					mo := o
-					kind := r.Intn(7)
+					kind := r.Intn(8)
 					sup := Val(VT("none"))
 					switch kind {
 					case 0, 1: // flip a byte of the container / payload (not of the embedded index: a
@@ -288,6 +296,25 @@ func init() {
 							f[r.Intn(lim)] ^= pick(r, []byte{0x01, 0x80, 0xff, 0x7f})
 						}
 						c.Count("malformed:byteflip")
+					case 7: // index offsets that are not int64 (>= 2^63), embedded in a CARv2 or supplied to a CARv1
+						recs := c07RefRecords(ar.roots, ar.blks, true)
+						for i := range recs {
+							if i == 0 || r.Chance(40) {
+								recs[i].off = pick(r, []uint64{1 << 63, 1<<63 + recs[i].off, 1<<64 - 1, 1<<64 - 1 - recs[i].off})
+							}
+						}
+						ib := c07RefIndexBytes(embCodec, recs)
+						front = 0
+						if r.Bool() {
+							f = c07V2File(ar.payload, dpad, ipad, ib, true)
+							if r.Bool() {
+								front = 1
+							}
+						} else {
+							f = append([]byte(nil), v1...)
+							sup = VL{VT("idx"), VB(ib)}
+						}
+						c.Count("malformed:index-offsets-beyond-int64")
 					case 6: // embedded index with wrong records: shifted / swapped / out-of-range offsets, foreign digests
 						recs := c07RefRecords(ar.roots, ar.blks, true)
 						for i := range recs {
@@ -323,7 +350,7 @@ func init() {
 					}
 					qs := c07Queries(front, keys)
 					hdrFiles := [][]byte{f}
-					if l, ok := sup.(VL); ok {
+					if l, ok := sup.(VL); ok && len(l) == 3 {
 						hdrFiles = append(hdrFiles, []byte(l[2].(VB)))
 					}
 					in := VL{VN(front), mo.val(), VB(f), sup, qs, c07HdrTable(hdrFiles...), VT("none")}
